@@ -390,6 +390,19 @@ func runMalformed(kind string) int {
 		rand.New(rand.NewSource(3)).Read(g)
 		g[28], g[29], g[30], g[31] = 10, 0, 0, 0
 		sim.Send(g)
+	case "connect-during-close":
+		// unsolicited inbound connects keep arriving while the application closes the port
+		stop := time.Now().Add(400 * time.Millisecond)
+		go func() {
+			for i := 0; time.Now().Before(stop); i++ {
+				sim.Send(Frame{Kind: 'C', From: fmt.Sprintf("LA%dXYZ", i%10), To: "LA1AAA", Data: []byte("*** CONNECTED To Station LA1AAA\r\x00")}.Encode())
+				time.Sleep(time.Millisecond)
+			}
+		}()
+		time.Sleep(60 * time.Millisecond)
+		tp.Close()
+		time.Sleep(500 * time.Millisecond)
+		return 0
 	case "bad-replies":
 		// wrong data lengths in the replies the library parses
 		sim.Send(Frame{Kind: 'Y', From: "LA1AAA", To: "LA2BBB", Data: []byte{1}}.Encode())
@@ -557,7 +570,8 @@ func Main(args []string) int {
 	}
 	// malformed input from the TNC: each in its own process
 	self, _ := os.Executable()
-	for _, k := range []string{"short-header-close", "datalen-too-big-close", "huge-datalen", "unknown-kinds", "garbage", "bad-replies"} {
+	for _, k := range []string{"short-header-close", "datalen-too-big-close", "huge-datalen", "unknown-kinds", "garbage", "bad-replies",
+		"connect-during-close", "connect-during-close", "connect-during-close"} {
 		cmd := exec.Command(self, "agwpe", "--child", k)
 		cmd.Env = append(os.Environ(), "GOMEMLIMIT=2GiB")
 		var stderr bytes.Buffer
